@@ -16,6 +16,7 @@
 // 64-bit length field for byte counts that a model checker cannot hash its way to)
 // Every input range handed to the library is an exact-size heap block (ASan sees over-reads).
 #include "drv.h"
+#include <pthread.h>
 #define private public
 #include <nstd/Crypto/Sha256.hpp>
 #undef private
@@ -49,6 +50,27 @@ static void j_mid(Sha256* h)
   j_arr_begin("S");
   for(int i = 0; i < 8; ++i) { j_arr_int((long long)(h->state[i] >> 16)); j_arr_int((long long)(h->state[i] & 0xffff)); }
   j_arr_end();
+}
+
+// par: two threads, each with its OWN hasher and its own message, hash at the same time (the algorithm must not share state
+// between objects); each thread hashes its message <reps> times and reports whether every digest was the same
+struct ParJob { long seed, len, reps; byte d[Sha256::digestSize]; int same; pthread_barrier_t* bar; };
+static void* par_main(void* a)
+{
+  ParJob* j = (ParJob*)a;
+  unsigned char* p = stream(j->seed, 0, j->len);
+  Sha256 h;
+  j->same = 1;
+  pthread_barrier_wait(j->bar);
+  for(long r = 0; r < j->reps; ++r)
+  {
+    byte d[Sha256::digestSize];
+    h.update(p, (usize)(j->len / 2)); h.update(p + j->len / 2, (usize)(j->len - j->len / 2));
+    h.finalize(d);
+    if(r == 0) memcpy(j->d, d, sizeof(d)); else if(memcmp(j->d, d, sizeof(d))) j->same = 0;
+  }
+  free(p);
+  return 0;
 }
 
 void drv_init(int, char**) { g_op_timeout = 3000; }   // "zeros 4096" hashes 4 GiB under ASan: minutes on a loaded machine
@@ -93,6 +115,20 @@ void drv_apply(const char* op)
     for(long i = 0; i < mib; ++i) H->update(z, 1 << 20);
     free(z);
     j_begin(op); j_int("mib", mib); j_mid(H); j_end();
+  }
+  else if(!strcmp(op, "par"))
+  {
+    ParJob a, b; pthread_barrier_t bar; pthread_t ta, tb;
+    a.seed = tok_int(); a.len = tok_int(); b.seed = tok_int(); b.len = tok_int(); a.reps = b.reps = tok_int();
+    pthread_barrier_init(&bar, 0, 2); a.bar = b.bar = &bar;
+    pthread_create(&ta, 0, par_main, &a); pthread_create(&tb, 0, par_main, &b);
+    pthread_join(ta, 0); pthread_join(tb, 0);
+    pthread_barrier_destroy(&bar);
+    j_begin(op); j_int("sa", a.seed); j_int("la", a.len); j_int("sb", b.seed); j_int("lb", b.len);
+    j_arr_begin("da"); for(int i = 0; i < 16; ++i) j_arr_int((long long)a.d[2 * i] * 256 + a.d[2 * i + 1]); j_arr_end();
+    j_arr_begin("db"); for(int i = 0; i < 16; ++i) j_arr_int((long long)b.d[2 * i] * 256 + b.d[2 * i + 1]); j_arr_end();
+    j_bool("same", a.same && b.same);
+    j_end();
   }
   else if(!strcmp(op, "hash"))
   {
